@@ -17,10 +17,12 @@ io-loop work are *observed* (reader / writer / dict / future hooks), never assum
 import asyncio
 import concurrent.futures
 import pickle
+import signal
 import struct
 import threading
 import uuid as _uuid
 
+ITERATE_TIMEOUT = 20.0   # watchdog for one loop iteration (normally << 1 ms)
 STEP_TIMEOUT = 5.0      # hang detector for a single caller step / wake-up (normally << 1 ms)
 
 
@@ -221,6 +223,8 @@ class Harness:
         self.fed = 0
         # reader-side frame tracking
         self.rstage = 0
+        self.read_errors = 0
+        self.spin = False
         self.rid = None
         self.recv_pending = False
         self.cleanup_shape = []     # what the cleanup was seen doing
@@ -305,8 +309,22 @@ class Harness:
         return HookReader(loop=self.loop)
 
     def iterate(self):
+        """one iteration of the real loop; a SIGALRM watchdog turns an iteration that never
+        returns (a step spinning without awaiting) into HarnessHang instead of a stuck check"""
         self.loop.call_soon(self.loop.stop)
-        self.loop.run_forever()
+        armed = False
+        if threading.current_thread() is threading.main_thread():
+            def _boom(signum, frame):
+                raise HarnessHang("one io-loop iteration does not return")
+            old = signal.signal(signal.SIGALRM, _boom)
+            signal.setitimer(signal.ITIMER_REAL, ITERATE_TIMEOUT)
+            armed = True
+        try:
+            self.loop.run_forever()
+        finally:
+            if armed:
+                signal.setitimer(signal.ITIMER_REAL, 0)
+                signal.signal(signal.SIGALRM, old)
 
     def loop_idle(self):
         return not self.loop._ready and not self.loop._scheduled
@@ -422,6 +440,12 @@ class Harness:
                     c.must_ok = bytes(data)
 
     def on_read_exc(self, e):
+        self.read_errors += 1
+        if self.read_errors > 50:
+            # the listener keeps reading a dead stream without ever leaving: it would spin
+            # forever inside one loop iteration - stop it and let the oracle report
+            self.spin = True
+            raise Abort()
         self._flush_recv()
         self.rstage = 0
         self.labels.append("recv")
@@ -583,7 +607,16 @@ class Harness:
         self.checkpoint()
 
     def finish(self):
-        """run every caller to the end of its own steps and the loop until nothing is ready"""
+        """run every caller to the end of its own steps and the loop until nothing is ready; if
+        callers are then still waiting on a live connection (the server never answered), the
+        server goes away (EOF) - after that nobody may be left waiting"""
+        self._complete()
+        if self.listener_state() == "listening" and \
+                any(c.thread is not None and not c.finished for c in self.callers):
+            self.apply(["EOF"])
+            self._complete()
+
+    def _complete(self):
         for _ in range(4):
             self.run_idle()
             moved = False
@@ -687,14 +720,17 @@ class Harness:
                         c.cf.set_exception(Abort())
                     except Exception:
                         pass
-            if not self.run_task.done():
-                self.run_task.cancel()
-            for _ in range(5):
-                self.iterate()
-            for t in asyncio.all_tasks(self.loop):
-                t.cancel()
-            for _ in range(3):
-                self.iterate()
+            try:
+                if not self.run_task.done():
+                    self.run_task.cancel()
+                for _ in range(5):
+                    self.iterate()
+                for t in asyncio.all_tasks(self.loop):
+                    t.cancel()
+                for _ in range(3):
+                    self.iterate()
+            except HarnessHang:
+                pass
             for c in self.callers:
                 if c.thread is not None:
                     c.thread.join(1.0)
